@@ -63,6 +63,11 @@ def items(tier, seed):
         per = 2 if tier == "quick" else 6
         for i in range(0, len(idx), per):
             out.append((cpu, si, idx[i:i + per], tier))
+        if tier == "quick":
+            # every other spec: a shallow exploration (a handful of decode paths) behind no prefix (and REX.WB in 64-bit mode)
+            rest = [k for k in range(nspecs) if k not in set(idx)]
+            for i in range(0, len(rest), 30):
+                out.append((cpu, si, rest[i:i + 30], "quick-shallow"))
     return out
 
 
@@ -92,6 +97,10 @@ def run_item(item):
     with symx.injected():
         for k in idxs:
             spec = specs[k]
+            if tier == "quick-shallow":
+                for pfx in ([b"", b"\x49"] if mode64 else [b""]):
+                    check_spec(cpu, mode64, spec, pfx, 14 - len(pfx), tier, res)
+                continue
             for pfx in prefixes(mode64, tier):
                 n = 14 - len(pfx)
                 check_spec(cpu, mode64, spec, pfx, n, tier, res)
@@ -100,14 +109,17 @@ def run_item(item):
 
 def check_spec(cpu, mode64, spec, pfx, n, tier, res):
     t0 = time.time()
-    E, paths = decx.explore(cpu, {}, n, focus=spec, prefix_bytes=pfx, max_paths=600 if tier == "quick" else 4000, budget_s=40 if tier == "quick" else 300)
+    shallow = tier == "quick-shallow"
+    if shallow:
+        tier = "quick"
+    E, paths = decx.explore(cpu, {}, n, focus=spec, prefix_bytes=pfx, max_paths=(8 if shallow else 600) if tier == "quick" else 4000, budget_s=(3 if shallow else 40) if tier == "quick" else 300)
     res["explorations"] += 1
     res["states"] += len(paths)
     res["transitions"] += E.stats["forks"]
     if not E.complete:
         res["incomplete_explorations"] += 1
     label = "%s %s prefix=%s" % (cpu.rsplit(".", 1)[1], isa.spec_id(spec), pfx.hex() or "-")
-    nval = 0
+    nval = 2 if shallow else 0  # the shallow pass calls the reference tools only on a disagreement
     budget = time.time() + (60 if tier == "quick" else 600)
     for p in paths:
         if p.outcome != "ins" or p.length is None:
@@ -142,7 +154,7 @@ def check_spec(cpu, mode64, spec, pfx, n, tier, res):
         # is tried concretely - amoco's length against the reference decoder's on the same bytes, the tools judge
         w0 = decx.model_bytes(list(p.pc), n)
         if w0 is not None:
-            for w2 in decx.siblings(p, w0, limit=40):
+            for w2 in decx.siblings(p, w0, limit=17 if shallow else 40):
                 res["capped_field_siblings"] = res.get("capped_field_siblings", 0) + 1
                 full = pfx + w2
                 ci = decx.concrete_decode(cpu, {}, full + b"\x90" * 2)
@@ -158,7 +170,7 @@ def check_spec(cpu, mode64, spec, pfx, n, tier, res):
                     elif v[0] == "agree":
                         res["reference_model_mismatches"] += 1
         E2 = symx.Engine(timeout_ms=15000, caps=dict(index=2, format=4, str=4, hash=6), max_decisions=2000)
-        sub = E2.explore(fn2, max_paths=200, deadline=time.time() + 30)
+        sub = E2.explore(fn2, max_paths=40 if shallow else 200, deadline=time.time() + (5 if shallow else 30))
         res["reference_subpaths"] += len(sub)
         res["obligations"] += E2.stats["obligations"]
         res["inconclusive"] += E2.stats["inconclusive"] + E2.stats["unknown"]
@@ -255,7 +267,7 @@ def coverage(agg, tier):
         "witnesses_outside_the_statement": {"reference says outside": agg.get("outside_reference", 0), "tools disagree or reject": agg.get("tools_disagree_or_reject", 0), "amoco does not decode": agg.get("undecoded_by_amoco", 0)},
         "reference_tools": {"objdump": TOOLS.OBJDUMP, "llvm-mc": TOOLS.LLVMMC},
         "rule": "state = one path of cpu.disassemble for a focused spec behind a prefix; obligation = on one sub-path of the reference decoder under that path condition: reference length == amoco length (and displacement equality for relative branches), for all bytes of the sub-path; traces validated = proven sub-path witnesses on which amoco, objdump and llvm-mc agree",
-        "bounds": {"specs": "quick: 1/40 of the shipped x86 and x64 specs (seeded), thorough: all", "prefixes": "quick: none, 66, REX.WB; thorough: + 67, F3, 2E, REX.W, REX.B, 66+REX.W, REX.WR, 66+67",
+        "bounds": {"specs": "quick: 1/40 of the shipped x86 and x64 specs (seeded) in depth, every other spec shallowly (<= 8 decode paths, no prefix / REX.WB); thorough: all in depth", "prefixes": "quick: none, 66, REX.WB; thorough: + 67, F3, 2E, REX.W, REX.B, 66+REX.W, REX.WR, 66+67",
                    "window": "14 bytes including the prefix", "paths": "quick <= 600 decode paths and 40 s per focus, 30 s per reference exploration; thorough <= 4000 / 300 s",
                    "outside": "see assumptions; paths beyond the caps (counted as incomplete)"},
         "stubs": symx.STUBS,
